@@ -47,7 +47,7 @@ func (lam *Lambda) Call(s *Scope, args List, depth int) (result Object) {
 		restSym Symbol
 	)
 Aux:
-	for i, ad := range lam.Doc.Args {
+	for _, ad := range lam.Doc.Args {
 		if len(args) <= ai {
 			break
 		}
@@ -87,12 +87,12 @@ Aux:
 			for ai < len(args) {
 				a := args[ai]
 				if sym, ok := a.(Symbol); ok && 0 < len(sym) && sym[0] == ':' {
-					sym = sym[1:]
-					for j := i + 1; j < len(lam.Doc.Args); j++ {
-						if string(sym) == lam.Doc.Args[j].Name {
-							mode = keyMode
-							break Mode
-						}
+					// Only a keyword that names a &key parameter ends the
+					// &rest arguments, one that happens to be spelled like
+					// an &aux parameter is an argument like any other.
+					if lam.Doc.getKeyArg(string(sym[1:])) != nil {
+						mode = keyMode
+						break Mode
 					}
 				}
 				ai++
